@@ -464,6 +464,24 @@ func (p *Program) writeSet(fn *ssa.Function) *writeRec {
 	}
 	ws := newWriteRec()
 	p.wsCache[fn] = ws // cycle guard: recursive calls see the partial set
+	if con := p.contractFor(fn); con != nil {
+		for _, m := range con.Modifies {
+			if sel, ok := m.E.(ESel); ok && strings.HasPrefix(sel.F, "$") {
+				// ghost field of the receiver/parameter type: find the struct type through the parameter
+				if id, ok := sel.X.(EIdent); ok {
+					for _, prm := range fn.Params {
+						if prm.Name() == id.Name {
+							if pt, ok := prm.Type().Underlying().(*types.Pointer); ok {
+								if _, name, ok := structOf(pt.Elem()); ok {
+									ws.comps[fieldComp(name, sel.F)] = true
+								}
+							}
+						}
+					}
+				}
+			}
+		}
+	}
 	if len(fn.Blocks) == 0 {
 		if _, ok := intrinsics[fn.String()]; ok {
 			if iw, ok := intrinsicWrites[fn.String()]; ok {
@@ -740,4 +758,17 @@ func (p *Program) fnAt(pos token.Pos) *ssa.Function {
 		}
 	}
 	return best
+}
+
+func (p *Program) ghostField(t types.Type, field string) *GhostField {
+	n, ok := types.Unalias(t).(*types.Named)
+	if !ok {
+		return nil
+	}
+	for _, gf := range p.contracts.GhostFields {
+		if gf.Field == field && gf.Struct == n.Obj().Name() && n.Obj().Pkg() != nil && n.Obj().Pkg().Path() == gf.PkgPath {
+			return gf
+		}
+	}
+	return nil
 }
